@@ -188,18 +188,12 @@ def run_impl(sc):
     if written and not placed:
         trace.append("rewrite")
     # `add` order is a set iteration order: canonicalise consecutive adds
-    canon, run_ = [], []
-    for ev in trace:
-        if ev.startswith("add:"):
-            run_.append(ev)
-        else:
-            canon += sorted(run_) + [ev]
-            run_ = []
-    canon += sorted(run_)
-    return {"trace": canon, "exit": 0 if code == 0 else 1}, {"args": args, "hooks_env": hooks_env, "exc": exc, "written": written, "raw_exit": code}
+    added = [ev[4:] for ev in trace if ev.startswith("add:")]
+    canon = ["add" if ev.startswith("add:") else ev for ev in trace]
+    return {"trace": canon, "exit": 0 if code == 0 else 1}, {"args": args, "added": added, "configured": files, "hooks_env": hooks_env, "exc": exc, "written": written, "raw_exit": code}
 
 
-MUTATING = ("add:", "commit", "tag", "tag_light", "push", "push_tag")
+MUTATING = ("add", "commit", "tag", "tag_light", "push", "push_tag")
 
 
 def oracle(sc, res, obs):
@@ -208,7 +202,7 @@ def oracle(sc, res, obs):
     def idx(pred):
         return [i for i, e in enumerate(tr) if pred(e)]
     commit_i = idx(lambda e: e == "commit")
-    muts = idx(lambda e: e.startswith(MUTATING) if False else any(e == m or e.startswith("add:") for m in MUTATING))
+    muts = idx(lambda e: e.startswith(MUTATING) if False else any(e == m for m in MUTATING))
     eff_commit = sc["cfg_commit"] if sc["commit"] is None else sc["commit"]
     eff_tag = sc["cfg_tag"] if sc["tag_commit"] is None else sc["tag_commit"]
     eff_push = sc["cfg_push"] if sc["push"] is None else sc["push"]
@@ -233,7 +227,7 @@ def oracle(sc, res, obs):
         return "commit although commit is off: %r" % tr
     order = ["status", "rewrite", "pre_hook", "add", "commit", "post_hook", "tag", "push"]
     def rank(e):
-        if e.startswith("add:"):
+        if e == "add":
             return 3
         if e in ("tag", "tag_light"):
             return 6
@@ -264,6 +258,10 @@ def oracle(sc, res, obs):
         k = tr.index("post_hook")
         if tr[k + 1:] or res["exit"] == 0:
             return "post-commit hook failed but the run went on: %r" % tr
+    if len(set(obs["added"])) != len(obs["added"]) or not set(obs["added"]) <= set(obs["configured"]):
+        return "staged paths %r are not distinct configured files %r" % (obs["added"], obs["configured"])
+    if commit_i and sorted(obs["added"]) != sorted(obs["configured"]):
+        return "committed with staged paths %r, configured files are %r" % (obs["added"], obs["configured"])
     for old, new in obs["hooks_env"]:
         if (old, new) != ("1.2.3", "1.2.4"):
             return "hook saw BUMPVER_OLD_VERSION=%r BUMPVER_NEW_VERSION=%r" % (old, new)
